@@ -673,3 +673,56 @@ func zMiscount(w *zWorld, strictRef *zRef, errs []LoadError) bool {
 	}
 	return false
 }
+
+// zGlobHistory (VerifC10Glob, VerifC11Glob): a glob include is expanded against the disk of the moment: a file created
+// (or removed) after an earlier resolution is seen by the next one, with or without the
+// invalidation the server issues for it. Shared loader against a fresh one.
+func zGlobHistory(label string) {
+	root := zzverif.Root()
+	pr := root + "/main.journal"
+	pat := []string{"*.journal", "sub/*.journal", "**/*.journal"}[zzverif.Choice("pattern", 3)]
+	dir := root + "/"
+	if pat != "*.journal" {
+		dir = root + "/sub/"
+	}
+	payee := "p" + string([]byte{zzverif.ByteIn("payee", zzverif.Lower)})
+	tx := func(n string) string { return "2024-01-15 " + payee + n + "\n    a:b  1 USD\n    c:d\n" }
+	cr := "include " + pat + "\n" + tx("r")
+	zzverif.WriteFile(pr, cr)
+	zzverif.WriteFile(dir+"a.journal", tx("a"))
+	shared := NewLoader()
+	same := func(step string) {
+		fresh := NewLoader()
+		var a, b *ResolvedJournal
+		var ae, be []LoadError
+		if zzverif.Choice("api."+step, 2) == 0 {
+			a, ae = shared.Load(pr)
+			b, be = fresh.Load(pr)
+		} else {
+			a, ae = shared.LoadFromContent(pr, cr)
+			b, be = fresh.LoadFromContent(pr, cr)
+		}
+		code := zSameResult(a, ae, b, be)
+		for k := 1; k < len(zDiffMsgs); k++ {
+			zzverif.Assert(code != k, zDiffMsgs[k])
+		}
+		zzverif.Assert(zSameContent(a, b), "shared loader and fresh loader yield different contents for a file")
+		zzverif.Observe("files."+step, len(b.Files))
+	}
+	same("0")
+	// a second file that matches the pattern appears
+	zzverif.WriteFile(dir+"b.journal", tx("b"))
+	if zzverif.Choice("invalidate", 2) == 1 {
+		shared.InvalidateFile(dir + "b.journal")
+	}
+	same("1")
+	zzverif.Reach(label)
+}
+
+func VerifC10Glob() { zGlobHistory("C10.glob.end") }
+func VerifC11Glob() { zGlobHistory("C11.glob.end") }
+
+func init() {
+	zzverif.Register("VerifC10Glob", VerifC10Glob)
+	zzverif.Register("VerifC11Glob", VerifC11Glob)
+}
